@@ -57,6 +57,7 @@ OPT_CONFIGS = [
     dict(name="one_adjustable", meas=("max", "vac", [2001, 2004], None), adj=1, tsc=False),
     dict(name="minmoney_atleast", meas=("min", "P1", [2001, 2004], None), adj=2, tsc=False, hard=("atleast", "vac", [2003], 1.0)),
     dict(name="max_atmost", meas=("max", "vac", [2001, 2004], None), adj=2, tsc=True, hard=("atmost", "sus", [2003], 1e6)),
+    dict(name="minmoney_increaseby", meas=("min", "P1", [2001, 2004], None), adj=2, tsc=False, hard=("increaseby", "vac", [2003], 0.0)),  # "must not fall below its value under the original instructions"
 ]
 
 
@@ -66,7 +67,10 @@ def build_opt(cfg, maxiters):
     meas = [M(name, t, pop_names=pops)]
     if cfg.get("hard"):
         hk, hn, ht, thr = cfg["hard"]
-        meas.append((at.AtLeastMeasurable if hk == "atleast" else at.AtMostMeasurable)(hn, ht, thr))
+        if hk == "increaseby":
+            meas.append(at.optimization.IncreaseByMeasurable(hn, ht, thr))  # relative to the value under the ORIGINAL instructions of the problem being solved
+        else:
+            meas.append((at.AtLeastMeasurable if hk == "atleast" else at.AtMostMeasurable)(hn, ht, thr))
     adj = [at.SpendingAdjustment("P1", 2001.0, "abs", 100.0, 3000.0)]
     if cfg["adj"] == 2:
         adj.append(at.SpendingAdjustment("P2", 2001.0, "rel", 0.25, 4.0))
@@ -93,14 +97,29 @@ def harness_objective(cfg, r):
     return -val if kind == "max" else val
 
 
-def hard_ok(cfg, r):
+def hard_ok(cfg, r, r_start=None):
     if not cfg.get("hard"):
         return True
     hk, hn, ht, thr = cfg["hard"]
+    if hk == "increaseby":
+        if r_start is None:
+            return True
+        f = lambda rr: sum(float(np.sum(np.asarray(var.vals)[rr.model.t == ht[0]])) for pop in rr.model.pops for var in pop.get_variable(hn))
+        return f(r) >= f(r_start) * (1 + thr) * (1 - 1e-9)
     tt = r.model.t
     filt = tt == ht[0]
     val = sum(float(np.sum(np.asarray(var.vals)[filt])) for pop in r.model.pops for var in pop.get_variable(hn))
     return val >= thr if hk == "atleast" else val <= thr
+
+
+def _start_instr(w, opt):
+    """the instructions at the optimiser's starting point (initial adjustable values applied)"""
+    i2 = sc.dcp(w.instr)
+    x0 = opt.get_initialization(w.progset, i2)[0]
+    opt.update_instructions(x0, i2)
+    if opt.constraints:
+        opt.constrain_instructions(i2, opt.get_hard_constraints(x0, w.instr))
+    return i2
 
 
 def cases(tier):
@@ -109,6 +128,9 @@ def cases(tier):
         yield dict(kind="opt_paths", cfg=cfg["name"], maxiters=d)
     for adj in (["p1"], ["p1", "rec"]):
         yield dict(kind="cal_paths", adjustables=adj, maxiters=d)
+    yield dict(kind="cal_paths", adjustables=["p1"], maxiters=1, start_outside_limits=True)
+    for cfg in OPT_CONFIGS:
+        yield dict(kind="opt_reuse", cfg=cfg["name"], maxiters=2)
     for target in ("calibrate", "optimize", "run_optimization", "reconcile"):
         for mi in (1, 2) if tier == "quick" else (1, 2, 3, 5):
             yield dict(kind="crash", target=target, maxiters=mi)
@@ -165,7 +187,7 @@ def run_opt_paths(case):
             nacc += 1
         if f1 > f0 + 1e-9 * max(1.0, abs(f0)):
             vs.append(V("objective-worse", f"{lab}: objective {f1!r} is worse than the starting point's {f0!r}", dict(path=path)))
-        if not hard_ok(cfg, r1):
+        if not hard_ok(cfg, r1, r0) and hard_ok(cfg, w.P.run_sim(w.parset, w.progset, opt.adjustments and _start_instr(w, opt), store_results=False), r0):
             vs.append(V("hard-target-lost", f"{lab}: the returned allocation violates the hard target {cfg.get('hard')} that the starting point met", dict(path=path)))
         # bounds
         a1 = float(ins.alloc["P1"].get(2001.0))
@@ -211,6 +233,11 @@ def run_cal_paths(case):
     h0 = {k: snap_hash(v) for k, v in objs.items()}
     adjustables = [(a, None, 0.1, 10.0) for a in case["adjustables"]]
     measurables = ["a"]
+    if case.get("start_outside_limits"):
+        # the caller's current calibration lies outside the limits given for the search: it must still not be touched
+        w.parset.pars["p1"].y_factor["pa"] = 2.5
+        adjustables = [("p1", "pa", 0.1, 2.0)]
+        h0 = {k: snap_hash(v) for k, v in objs.items()}
 
     def mismatch(ps):
         # fractional mismatch between data and model for compartment a in both populations (the default calibration metric)
@@ -236,9 +263,8 @@ def run_cal_paths(case):
         return rng, out
 
     npaths = nacc = 0
-    n_choices = 2 * len(adjustables) * 1
-    # one y-factor per population is adjusted when pop is None -> 2 pops
-    n_choices = 2 * len(adjustables) * 2
+    # one y-factor per population is adjusted when pop is None -> 2 populations
+    n_choices = 2 * len(adjustables) * (1 if case.get("start_outside_limits") else 2)
     for path, (status, ps) in explore(run, n_choices, max_draws=case["maxiters"] + 2):
         npaths += 1
         lab = f"calibrate{case['adjustables']} maxiters={case['maxiters']} ASD path {path}"
@@ -255,7 +281,7 @@ def run_cal_paths(case):
         f1 = mismatch(ps)
         if f1 < f0 - 1e-12:
             nacc += 1
-        if f1 > f0 + 1e-9 * max(1.0, f0):
+        if not case.get("start_outside_limits") and f1 > f0 + 1e-9 * max(1.0, f0):
             vs.append(V("calibration-worse", f"{lab}: mismatch between data and model is {f1!r} after calibration, {f0!r} before", dict(path=path)))
         for k, v in objs.items():
             if snap_hash(v) != h0[k]:
@@ -264,6 +290,35 @@ def run_cal_paths(case):
         if len(vs) >= 3:
             break
     return dict(states=npaths, transitions=npaths, nontrivial=npaths > 1, violations=vs[:3], counters=dict(asd_paths_calibration=npaths, calibration_paths_improving=nacc))
+
+
+def run_opt_reuse(case):
+    """one Optimization object is used for two different problems in a row: the second answer must equal the answer of a fresh object"""
+    cfg = next(c for c in OPT_CONFIGS if c["name"] == case["cfg"])
+    vs = []
+    n = 0
+    for path in ([], [1], [2, 1]):
+        w1, w2 = make_A(), make_A()
+        w2.parset.pars["vr"].y_factor["pa1"] = 0.4  # a different problem: other calibration, other baseline values
+        w2.parset.pars["dr"].meta_y_factor = 3.0
+        reused = build_opt(cfg, case["maxiters"])
+        fresh = build_opt(cfg, case["maxiters"])
+        def solve(w, opt):
+            try:
+                with scripted(path):
+                    res = at.optimize(w.P, opt, w.parset, w.progset, w.instr)
+                return {k: [float(x) for x in v.vals] for k, v in res.alloc.items()}
+            except InvalidInitialConditions as e:
+                return f"InvalidInitialConditions: {e}"
+
+        solve(w1, reused)
+        xa = solve(w2, reused)
+        xb = solve(w2, fresh)
+        n += 1
+        if xa != xb:
+            vs.append(V("optimization-object-keeps-state", f"optimize[{cfg['name']}] ASD path {path}: an Optimization object already used for another problem returns {xa}, a fresh one {xb}", dict(path=path)))
+            break
+    return dict(states=n, transitions=n, nontrivial=n > 0, violations=vs, counters=dict(reuse_pairs=n))
 
 
 class _OptimIns:
@@ -365,4 +420,4 @@ def run_crash(case):
 
 
 def run_case(case):
-    return dict(opt_paths=run_opt_paths, cal_paths=run_cal_paths, crash=run_crash)[case["kind"]](case)
+    return dict(opt_paths=run_opt_paths, cal_paths=run_cal_paths, crash=run_crash, opt_reuse=run_opt_reuse)[case["kind"]](case)
